@@ -13,3 +13,15 @@ func VerifPipeIDsInUse() []uint32 {
 	}
 	return out
 }
+
+// VerifSetPipeIDNext positions the process-wide pipe id allocator's counter, so
+// that a monitor can drive it across its boundaries (the 31-bit mask, the
+// 32-bit wrap) without creating 2^31 pipes.  Ids in use stay in use.
+func VerifSetPipeIDNext(next uint32) {
+	pipeIDs.lock.Lock()
+	defer pipeIDs.lock.Unlock()
+	if pipeIDs.used == nil {
+		pipeIDs.used = make(map[uint32]struct{})
+	}
+	pipeIDs.next = next
+}
